@@ -14,7 +14,7 @@ import json, os, re
 from fractions import Fraction as Fr
 from core import *
 
-NEEDS = ["Vectorize", "VectorizeProofs", "Corr"]
+NEEDS = ["Vectorize", "VectorizeProofs", "Corr", "IndexedEquiv", "Gen_get_indexed_var_str"]   # IndexedEquiv: E2 tie of _get_indexed_var_str
 GUARDS = ["no_constant_rhs", "no_scalar_fanout"]
 RAW_GUARD = "algebraic_source_independent_of_input"
 XN = ["x", "xb", "xc", "xd"]
